@@ -6,11 +6,13 @@ from .common import crash_outcome
 from .runner import Outcome
 
 
-def strategy_for(profiles):
-    """profiles: list of (weight, profile name)"""
+def strategy_for(profiles, tier="quick"):
+    """profiles: list of (weight, profile name); the thorough tier mixes in bigger scenarios"""
     opts = []
     for w, name in profiles:
-        opts += [simgen.scenario(name)] * w
+        opts += [simgen.scenario(name)] * (2 * w)
+        if tier == "thorough":
+            opts += [simgen.scenario(name, big=True)] * w
     return st.one_of(*opts)
 
 
